@@ -133,7 +133,7 @@ impl Prop for Emission {
         let w = if t.chance(1, 2) { 8 } else { 4 };
         let mut cfg = GenCfg::rich(w);
         cfg.max_mods = 6;
-        cfg.max_items = 1 + t.below(10);
+        cfg.max_items = 1 + t.below(10 * crate::driver::scale());
         let (prog, _, _) = gen_prog(t, cfg);
         Case { prog, w }
     }
